@@ -5,38 +5,38 @@
    Spec.BrokerSpec.held_ix meets it by construction, the trie meets it by C01.  The harness runs the
    trie instance and the specification instance against the real broker on every run. *)
 From Emitter Require Import Lib.Base Model.MsgCodec Model.Channel Model.Key Model.Trie Model.Store Model.Broker
-     Spec.PubSub Spec.BrokerSpec Proofs.BrokerProofs Proofs.BrokerStep.
+     Spec.PubSub Spec.BrokerSpec Proofs.TrieReach Proofs.BrokerProofs Proofs.BrokerStep Proofs.TrieIx.
 
 (* a publish the broker accepted is written exactly once to each connection that holds, at that
    moment, a subscription whose filter matches - minus the publisher if it excluded itself - and
    nothing else in the broker moves *)
-Theorem C02_delivery_exact : forall {I} (X : ixops I) abs inv, IxSpec X abs inv ->
+Theorem C02_delivery_exact : forall {I} (X : ixops I) abs inv okf, IxSpec X abs inv okf ->
   forall mqtt (b : @broker I) ssid ch payload exclude, inv (b_trie b) ->
   let b' := deliver X mqtt b ssid ch payload exclude in
   ext b b'
   /\ exists tg, b_out b' = b_out b ++ map (fun i => (i, PMsg ch payload)) tg /\ NoDup tg
      /\ forall i, In i tg <-> exists s f, In (f, s) (abs (b_trie b)) /\ matches mqtt f ssid = true
                                        /\ conn_of_sub (b_conns b) s 0 = Some i /\ exclude <> Some s.
-Proof. intros I X abs inv HS. exact (delivery_exact X abs inv HS). Qed.
+Proof. intros I X abs inv okf HS. exact (delivery_exact X abs inv okf HS). Qed.
 Print Assumptions C02_delivery_exact.
 
 (* subscribing inserts exactly (filter, subscriber), unsubscribing removes exactly it; a repeated
    subscribe and an unsubscribe of a filter not held are no-ops (acknowledged, nothing changes) *)
-Theorem C02_subscribe_unsubscribe_exact : forall {I} (X : ixops I) abs inv, IxSpec X abs inv ->
+Theorem C02_subscribe_unsubscribe_exact : forall {I} (X : ixops I) abs inv okf, IxSpec X abs inv okf ->
   forall mqtt (b : @broker I) i c ssid ch, inv (b_trie b) -> get_conn (b_conns b) (N.to_nat i) = Some c ->
-  (has_ctr c ssid = false ->
+  (has_ctr c ssid = false -> okf ssid ->
      forall p, In p (abs (b_trie (subscribe_ev X b i c ssid ch))) <-> In p (abs (b_trie b)) \/ p = (ssid, cn_sub c))
   /\ (has_ctr c ssid = true -> subscribe_ev X b i c ssid ch = b)
   /\ (has_ctr c ssid = true ->
      forall p, In p (abs (b_trie (unsubscribe_ev X mqtt b i c ssid ch))) <-> In p (abs (b_trie b)) /\ p <> (ssid, cn_sub c))
   /\ (has_ctr c ssid = false -> unsubscribe_ev X mqtt b i c ssid ch = b).
 Proof.
-  intros I X abs inv HS mqtt b i c ssid ch Hi G.
+  intros I X abs inv okf HS mqtt b i c ssid ch Hi G.
   refine (conj _ (conj _ (conj _ _))).
-  - intros H p. destruct (subscribe_ev_effect X b i c ssid ch H) as (T & _). rewrite T.
-    apply (ixs_sub X abs inv HS ssid (cn_sub c) (b_trie b) Hi).
+  - intros H Ho p. destruct (subscribe_ev_effect X b i c ssid ch H) as (T & _). rewrite T.
+    apply (ixs_sub X abs inv okf HS ssid (cn_sub c) (b_trie b) Hi Ho).
   - apply subscribe_ev_repeat.
-  - intros H. apply (unsubscribe_ev_held X abs inv HS mqtt b i c ssid ch Hi H G).
+  - intros H. apply (unsubscribe_ev_held X abs inv okf HS mqtt b i c ssid ch Hi H G).
   - apply unsubscribe_ev_not_held.
 Qed.
 Print Assumptions C02_subscribe_unsubscribe_exact.
@@ -65,9 +65,15 @@ Qed.
 Print Assumptions C02_failed_request_changes_nothing.
 
 (* the specification index meets the contract, so the statements are not vacuous *)
-Theorem C02_spec_index_meets_contract : IxSpec held_ix (fun h => h) (fun _ => True).
+Theorem C02_spec_index_meets_contract : IxSpec held_ix (fun h => h) (fun _ => True) (fun _ => True).
 Proof. exact held_ix_spec. Qed.
 Print Assumptions C02_spec_index_meets_contract.
+
+(* ... and so does the model of the code, the trie, for every history of filters outside $share
+   groups (C01's refinement): the statements above hold of the trie-indexed broker *)
+Theorem C02_trie_index_meets_contract : IxSpec trie_ix abs trie_inv noshare.
+Proof. exact trie_ix_spec. Qed.
+Print Assumptions C02_trie_index_meets_contract.
 
 Example C02_nonvacuous :
   let b := B [([7; 11], 5); ([7; 12], 6)] [Some (Conn 5 [] None true [] []); Some (Conn 6 [] None true [] [])] [] 0 [] [] in
